@@ -34,4 +34,17 @@ def thinLengthLeaks : List String :=
       (starts s.selfTy "ThinArc" ||
        (has s.outShape "HeaderWithLength" && !has s.outShape "Protected" && has s.selfTy "Protected"))).map (·.key)
 theorem obl_thin_length_not_writable : thinLengthLeaks = [] := by decide
+
+/-- the public functions that lend a handle to a client callback: each is an op of the history correspondence
+(`cb:rawOffset`, `cb:borrowWithArc`, `cb:offsetWithArc`, `cb:thinWithArc`, `cb:thinWithArcMut`) and of the model (`CbApi`),
+where the count inside the callback, the unwind path and — for the `&mut` one — the write-back are compared with the model.
+A further lending function would be a borrow the correspondence does not drive: C04's "inside every borrow callback" and
+C03/C10's write-back statement would not be shown for it. -/
+def lendingFns : List String :=
+  (Generated.sigs.filter fun s => s.isPub && !s.callbacks.isEmpty).map (·.key)
+def knownLendingFns : List String :=
+  ["Arc::with_raw_offset_arc", "ArcBorrow::with_arc", "OffsetArc::with_arc", "ThinArc::with_arc", "ThinArc::with_arc_mut"]
+theorem obl_lending_fn_census :
+    (lendingFns.all fun k => knownLendingFns.contains k) = true ∧ (knownLendingFns.all fun k => lendingFns.contains k) = true := by
+  decide
 end ApiShape
